@@ -112,7 +112,9 @@ def run(
         if p.returncode == 124:
             raise TLCError(f"TLC timed out after {timeout}s: {module} {cfg}\n{out[-2000:]}")
         if not res.ok and res.violated is None:
-            raise TLCError(f"TLC failed (rc={p.returncode}) on {module} {cfg}:\n{out[-4000:]}")
+            i = out.find("Semantic errors")
+            detail = out[i:i + 1500] if i >= 0 else out[-3000:]
+            raise TLCError(f"TLC failed (rc={p.returncode}) on {module} {cfg}:\n{detail}")
         return res
     finally:
         if not keep:
